@@ -360,7 +360,26 @@ def kw_wpimult(draw, m):
 
 
 @st.composite
+def int_controls(draw):
+    """old-style integer controls of RPTRST / RPTSCHED / RPTSOL: a list of small integers of ANY length (the positions
+    have meanings up to about 30..80; lengths around those bounds matter)"""
+    n = draw(st.sampled_from([1, 8, 20, 25, 26, 27, 30, 31, 32, 33, 47, 48, 49]) | st.integers(1, 90))
+    vals = [draw(st.sampled_from([0, 0, 0, 1, 1, 2, 3])) for _ in range(n)]
+    # written with repeat counts where neighbours are equal (as decks do)
+    out, i = [], 0
+    while i < n:
+        j = i
+        while j + 1 < n and vals[j + 1] == vals[i]:
+            j += 1
+        out.append("%d*%d" % (j - i + 1, vals[i]) if j > i and draw(st.booleans()) else " ".join(str(vals[i]) for _ in range(j - i + 1)))
+        i = j + 1
+    return " ".join(out)
+
+
+@st.composite
 def kw_misc(draw, m):
+    if draw(st.integers(0, 7)) == 0:
+        return "%s\n %s /\n" % (draw(st.sampled_from(["RPTRST", "RPTRST", "RPTSCHED"])), draw(int_controls()))
     return draw(st.sampled_from([
         "TUNING\n 1 10 0.1 0.15 3 0.3 0.1 1.25 /\n /\n 12 1 25 1 8 8 /\n",
         "TUNING\n 0.5 5 /\n /\n 10 1 20 /\n",
@@ -750,6 +769,8 @@ def gen_static(draw):
         mn = draw(st.lists(st.sampled_from(["BASIC=2", "BASIC=3", "FREQ=2", "PRES", "DEN", "KRO", "RSSAT", "ALLPROPS", "FLOWS", "VISC"]),
                            min_size=1, max_size=4, unique=True))
         sol.append("RPTRST\n %s /\n" % " ".join(mn))
+    elif draw(st.integers(0, 3)) == 0:
+        sol.append("%s\n %s /\n" % (draw(st.sampled_from(["RPTRST", "RPTSOL"])), draw(int_controls())))
     return {"runspec_extra": "".join(rs), "grid_extra": "".join(grid), "solution": "".join(sol)}
 
 
